@@ -19,6 +19,11 @@
 (*              rows : Seq([rattrs, cells : Seq([kind : "hdr"|"data", attrs,  *)
 (*              content])]), style]                                           *)
 (*   attrs   = Seq([n |-> STRING, v |-> STRING])   (v = "" : bare name)       *)
+(*           | ... [n |-> STRING, w : Seq(atom), q : "dq"|"sq"|"none",        *)
+(*                  eq : BOOLEAN]   a WRITTEN attribute: the characters of    *)
+(*              the value (w), its own delimiters (q) and blanks around '='   *)
+(*              (eq); the value the property demands is CatAtoms(w) - what is *)
+(*              written between the ONE pair of delimiters                    *)
 (*   style   = [sep : "line"|"inline"|"mixed", sp : BOOLEAN, q : "dq"|"sq"|   *)
 (*              "none", first : BOOLEAN, hbar : BOOLEAN]                      *)
 (*                                                                            *)
@@ -37,6 +42,9 @@
 (*                               are not tags                                  *)
 (*   "RowCellsReadAsAttributes"  table_row_check_attrs re-reads the cells a    *)
 (*                               row already has as its attribute text         *)
+(* What-if switches (never passed by the harness, demos only): WhatIfKeyDevs    *)
+(* (cookie key not injective), WhatIfAttrDevs (parse_attrs takes more than the  *)
+(* ONE pair of delimiters off a quoted value).                                  *)
 EXTENDS Unparse
 
 CONSTANT Tags   \* wikihtml.ALLOWED_HTML_TAGS as tag :> [parents, content, closenext : Seq(STRING), noend : BOOLEAN]
@@ -69,11 +77,61 @@ IsTagAttrName(a, dev) ==
 \* names of parserfns.PARSER_FUNCTIONS used by the vocabulary
 PFNames == {<<"#", "if">>, <<"#", "switch">>, <<"lc">>, <<"uc">>, <<"PAGENAME">>, <<"#", "expr">>}
 UrlSchemes == {"http", "https"}
+\* the string an atom sequence spells (attribute names / values of real trees are strings)
+AtomStr(a) == IF a = "SP" THEN " " ELSE IF a = "NL" THEN "\n" ELSE a
+RECURSIVE CatAtoms(_)
+CatAtoms(s) == IF s = <<>> THEN "" ELSE AtomStr(s[1]) \o CatAtoms(Tail(s))
+
+(* ------------------------------------------------------------------------ *)
+(* written attributes: the characters of a value and how it is delimited     *)
+(* ------------------------------------------------------------------------ *)
+\* An attribute of a written structure is either [n, v] (one URL-safe atom, delimiters
+\* chosen by the table style / "dq" in start tags) or a WRITTEN attribute [n, w, q, eq]:
+\*   w   the characters of the value as atoms (may hold the quote character of the other
+\*       kind at its first / last position or inside, blanks, = > & ... , may be empty)
+\*   q   its own delimiters: "dq" "..."  /  "sq" '...'  /  "none"
+\*   eq  blanks around the '=' (name = "value")
+\* The value the statement demands ("exactly that map") is the written value: everything
+\* between the ONE pair of delimiters, character by character.
+IsWritten(a) == "w" \in DOMAIN a
+AttrOf(a) == IF IsWritten(a) THEN [n |-> a.n, v |-> CatAtoms(a.w)] ELSE a
+AttrsOf(attrs) == [i \in 1..Len(attrs) |-> AttrOf(attrs[i])]
+Delim(q) == CASE q = "dq" -> <<"\"">> [] q = "sq" -> <<"'">> [] q = "none" -> <<>>
+\* characters a URL-safe value is made of (RFC 3986 unreserved and sub-delims / pchar that have
+\* no meaning of their own in the wikitext positions used; the apostrophe is one of them, the
+\* double quote, blanks, < > & are not).  The statement quantifies over URL-safe values: a
+\* page whose written values stay inside this set is judged strictly (VIOLATION), any other
+\* page is a prediction of the model beyond the statement (DRIFT).
+SafeValuePunct == {"'", "=", ":", ";", ",", ".", "-", "_", "~", "(", ")", "/", "?", "@", "+", "*", "$", "%"}
+UrlSafeValue(w) == \A i \in 1..Len(w) : (w[i] \notin Punct /\ w[i] \notin {"SP", "NL"}) \/ w[i] \in SafeValuePunct
+UrlSafeAttrs(attrs) == \A i \in 1..Len(attrs) : IsWritten(attrs[i]) => UrlSafeValue(attrs[i].w)
+\* which written attributes the fragment covers (site = "tag": inside an HTML start tag, "table": the
+\* {| |- |+ ! | positions).  Outside: a value holding its own delimiter; an unquoted value that is
+\* empty or holds a quote, blank, = < > `; two adjacent apostrophes anywhere in the rendering ('' is
+\* the italic token of wikitext, so also the empty value written ''); characters that end the
+\* attribute position (| ! { } [ ] < line break); > inside a start tag (the start-tag token ends
+\* at the first >); an unquoted value that ends with / inside a start tag (<sup id=a/> is read as a
+\* self-closing tag whose value is a/); a value that spells a URL scheme.
+NoAdjacentApostrophes(w) == \A i \in 1..(Len(w) - 1) : ~(w[i] = "'" /\ w[i + 1] = "'")
+OKWritten(a, site) ==
+  \/ ~IsWritten(a)
+  \/ /\ a.q \in {"dq", "sq", "none"}
+     /\ \A i \in 1..Len(a.w) : a.w[i] \notin {"|", "!", "{", "}", "[", "]", "<", "`", "NL", "http", "https", "mailto", "ftp"}
+     /\ a.q = "dq" => \A i \in 1..Len(a.w) : a.w[i] # "\""
+     /\ a.q = "sq" => a.w # <<>> /\ \A i \in 1..Len(a.w) : a.w[i] # "'"
+     /\ a.q = "none" => a.w # <<>> /\ \A i \in 1..Len(a.w) : a.w[i] \notin {"\"", "'", "SP", "=", ">"}
+     /\ NoAdjacentApostrophes(a.w)
+     /\ site = "tag" => \A i \in 1..Len(a.w) : a.w[i] # ">"
+     /\ (site = "tag" /\ a.q = "none") => a.w[Len(a.w)] # "/"
+OKAttrs(attrs, site) == \A i \in 1..Len(attrs) : OKWritten(attrs[i], site)
 
 (* ------------------------------------------------------------------------ *)
 (* Render: how the structure is written                                      *)
 (* ------------------------------------------------------------------------ *)
 RenderAttr(a, q) ==
+  IF IsWritten(a)
+  THEN <<a.n>> \o (IF a.eq THEN <<"SP", "=", "SP">> ELSE <<"=">>) \o Delim(a.q) \o a.w \o Delim(a.q)
+  ELSE
   IF a.v = "" THEN <<a.n>>
   ELSE CASE q = "dq" -> <<a.n, "=", "\"", a.v, "\"">>
          [] q = "sq" -> <<a.n, "=", "'", a.v, "'">>
@@ -169,13 +227,13 @@ ItemTree(it) ==
     [] it.k = "E" -> <<Node("URL", <<>>, <<<<Str(it.url)>>>> \o (IF it.text = <<>> THEN <<>> ELSE <<CT(it.text)>>), <<>>, <<>>)>>
     [] it.k = "I" -> <<Node("ITALIC", <<>>, <<>>, <<>>, CT(it.c))>>
     [] it.k = "B" -> <<Node("BOLD", <<>>, <<>>, <<>>, CT(it.c))>>
-    [] it.k = "H" -> <<Node("HTML", <<it.tag>>, <<>>, it.attrs, CT(it.c))>>
+    [] it.k = "H" -> <<Node("HTML", <<it.tag>>, <<>>, AttrsOf(it.attrs), CT(it.c))>>
     [] it.k = "TB" ->
-         LET cap == IF it.hascap THEN <<Node("TABLE_CAPTION", <<>>, <<>>, it.cattrs, CT(it.caption))>> ELSE <<>>
+         LET cap == IF it.hascap THEN <<Node("TABLE_CAPTION", <<>>, <<>>, AttrsOf(it.cattrs), CT(it.caption))>> ELSE <<>>
              Cells(cells) == [j \in 1..Len(cells) |->
-                                Node(KindOfCell(cells[j].kind), <<>>, <<>>, cells[j].attrs, CT(cells[j].content))]
-             rows == [i \in 1..Len(it.rows) |-> Node("TABLE_ROW", <<>>, <<>>, it.rows[i].rattrs, Cells(it.rows[i].cells))]
-         IN <<Node("TABLE", <<>>, <<>>, it.tattrs, cap \o rows)>>
+                                Node(KindOfCell(cells[j].kind), <<>>, <<>>, AttrsOf(cells[j].attrs), CT(cells[j].content))]
+             rows == [i \in 1..Len(it.rows) |-> Node("TABLE_ROW", <<>>, <<>>, AttrsOf(it.rows[i].rattrs), Cells(it.rows[i].cells))]
+         IN <<Node("TABLE", <<>>, <<>>, AttrsOf(it.tattrs), cap \o rows)>>
 
 RootNode(kids) == [kind |-> "ROOT", sarg |-> <<>>, largs |-> <<<<Str(<<"Pg">>)>>>>, attrs |-> <<>>,
                    children |-> kids, defn |-> <<>>]
@@ -200,18 +258,35 @@ OKItem(it, cx) ==
     [] it.k = "I" -> ~inCall /\ "I" \notin cx /\ NoFormatEdge(it.c) /\ OKContent(it.c, cx \cup {"I"})
     [] it.k = "B" -> ~inCall /\ "B" \notin cx /\ NoFormatEdge(it.c) /\ OKContent(it.c, cx \cup {"B"})
     \* [url <b>text</b>]: the bracket syntax of this parser ends at the first < or >
-    [] it.k = "H" -> ~inCall /\ "E" \notin cx /\ UniqueNames(it.attrs) /\ OKContent(it.c, cx \cup {"H"})
+    [] it.k = "H" -> ~inCall /\ "E" \notin cx /\ UniqueNames(it.attrs) /\ OKAttrs(it.attrs, "tag") /\ OKContent(it.c, cx \cup {"H"})
     [] it.k = "TB" ->
          /\ cx \subseteq {"TB"}
          /\ UniqueNames(it.tattrs) /\ UniqueNames(it.cattrs)
+         /\ OKAttrs(it.tattrs, "table") /\ OKAttrs(it.cattrs, "table")
          /\ OKContent(it.caption, cx \cup {"TB"})
          /\ \A i \in 1..Len(it.rows) :
-              /\ UniqueNames(it.rows[i].rattrs)
+              /\ UniqueNames(it.rows[i].rattrs) /\ OKAttrs(it.rows[i].rattrs, "table")
               /\ it.rows[i].cells # <<>>
               /\ \A j \in 1..Len(it.rows[i].cells) :
-                   /\ UniqueNames(it.rows[i].cells[j].attrs)
+                   /\ UniqueNames(it.rows[i].cells[j].attrs) /\ OKAttrs(it.rows[i].cells[j].attrs, "table")
                    /\ OKContent(it.rows[i].cells[j].content, cx \cup {"TB"})
 Admissible(page) == OKContent(page, {})
+\* is the page inside the statement's quantifier as far as attribute values go (URL-safe values)?
+RECURSIVE SafeContent(_), SafeItem(_)
+SafeContent(c) == \A i \in 1..Len(c) : SafeItem(c[i])
+SafeItem(it) ==
+  CASE it.k = "t" -> TRUE
+    [] it.k \in {"T", "A", "P", "L"} -> \A i \in 1..Len(it.args) : SafeContent(it.args[i])
+    [] it.k = "E" -> SafeContent(it.text)
+    [] it.k \in {"I", "B"} -> SafeContent(it.c)
+    [] it.k = "H" -> UrlSafeAttrs(it.attrs) /\ SafeContent(it.c)
+    [] it.k = "TB" ->
+         /\ UrlSafeAttrs(it.tattrs) /\ UrlSafeAttrs(it.cattrs) /\ SafeContent(it.caption)
+         /\ \A i \in 1..Len(it.rows) :
+              /\ UrlSafeAttrs(it.rows[i].rattrs)
+              /\ \A j \in 1..Len(it.rows[i].cells) :
+                   UrlSafeAttrs(it.rows[i].cells[j].attrs) /\ SafeContent(it.rows[i].cells[j].content)
+UrlSafePage(page) == SafeContent(page)
 
 (* ------------------------------------------------------------------------ *)
 (* Encode: core.py _encode at atom level (inside-out cookie replacement)     *)
@@ -593,28 +668,46 @@ TextFn(st, a) ==
 (* ---- parse_attrs (parser.py:1872-1889) over the atoms of the attribute text ---- *)
 \* \b(name)(?:\s*=\s*("[^"]*"|'[^']*'|[^"'<>`\s]*))?\s*  with finditer.  Names and values
 \* are the concatenated spellings of their atoms (one atom for every URL-safe name/value).
-AtomStr(a) == IF a = "SP" THEN " " ELSE IF a = "NL" THEN "\n" ELSE a
-RECURSIVE CatAtoms(_)
-CatAtoms(s) == IF s = <<>> THEN "" ELSE AtomStr(s[1]) \o CatAtoms(Tail(s))
 SkipWs(s, p) == p + RunLen(s, p, "ws")
 PlainQuotedLen(s, q, qc) ==   \* length of qc [^qc]* qc at q, 0 if none
   IF q <= Len(s) /\ s[q] = qc THEN (LET j == IndexIn(s, q + 1, {qc}) IN IF j > 0 THEN j - q + 1 ELSE 0) ELSE 0
-RECURSIVE ParseAttrsFrom(_, _)
-ParseAttrsFrom(s, p) ==
+\* What-if switches (never part of a Dev the harness passes; Demo_ParserStruct_attr_*.cfg let TLC show
+\* that each of them breaks the law on the universe "ATTR"): ways of taking the delimiters off a quoted
+\* value that agree with "drop the first and the last character" on every value made of letters
+\*   "QuotesStrippedGreedily"   every quote character of either kind is taken off both ends
+\*   "QuotesRemovedEverywhere"  every quote character of either kind is taken out of the value
+\*   "ValueEndsAtAnyQuote"      a quoted value ends at the next quote character of either kind
+WhatIfAttrDevs == {"QuotesStrippedGreedily", "QuotesRemovedEverywhere", "ValueEndsAtAnyQuote"}
+QuoteAtoms == {"\"", "'"}
+RECURSIVE LStripQ(_), RStripQ(_)
+LStripQ(s) == IF Len(s) > 0 /\ s[1] \in QuoteAtoms THEN LStripQ(Tail(s)) ELSE s
+RStripQ(s) == IF Len(s) > 0 /\ s[Len(s)] \in QuoteAtoms THEN RStripQ(SubSeq(s, 1, Len(s) - 1)) ELSE s
+\* the value of a quoted match m = delimiter ... delimiter
+Unquote(m, dev) ==
+  IF "QuotesRemovedEverywhere" \in dev THEN SelectSeq(m, LAMBDA x : x \notin QuoteAtoms)
+  ELSE IF "QuotesStrippedGreedily" \in dev THEN RStripQ(LStripQ(m))
+  ELSE SubSeq(m, 2, Len(m) - 1)                    \* value[1:-1]: exactly one delimiter on each side
+QuotedValueLen(s, q, qc, dev) ==   \* length of qc [^qc]* qc at q, 0 if none
+  IF "ValueEndsAtAnyQuote" \in dev
+  THEN (IF q <= Len(s) /\ s[q] = qc THEN (LET j == IndexIn(s, q + 1, QuoteAtoms) IN IF j > 0 THEN j - q + 1 ELSE 0) ELSE 0)
+  ELSE PlainQuotedLen(s, q, qc)
+RECURSIVE ParseAttrsFromD(_, _, _)
+ParseAttrsFromD(s, p, dev) ==
   IF p > Len(s) THEN <<>>
-  ELSE IF ~(IsWord(s[p]) \/ s[p] = "_") THEN ParseAttrsFrom(s, p + 1)      \* \b
+  ELSE IF ~(IsWord(s[p]) \/ s[p] = "_") THEN ParseAttrsFromD(s, p + 1, dev)      \* \b
   ELSE LET nl == RunLen(s, p, "attrname")
            name == CatAtoms(SubSeq(s, p, p + nl - 1))
            p1 == SkipWs(s, p + nl)
        IN IF p1 <= Len(s) /\ s[p1] = "="
           THEN LET p2 == SkipWs(s, p1 + 1)
-                   dq == PlainQuotedLen(s, p2, "\"")
-                   sq == PlainQuotedLen(s, p2, "'")
+                   dq == QuotedValueLen(s, p2, "\"", dev)
+                   sq == QuotedValueLen(s, p2, "'", dev)
                    ql == IF dq > 0 THEN dq ELSE sq
                    ul == RunLen(s, p2, "attrunq")
-               IN IF ql > 0 THEN <<Attr(name, CatAtoms(SubSeq(s, p2 + 1, p2 + ql - 2)))>> \o ParseAttrsFrom(s, SkipWs(s, p2 + ql))
-                  ELSE <<Attr(name, CatAtoms(SubSeq(s, p2, p2 + ul - 1)))>> \o ParseAttrsFrom(s, SkipWs(s, p2 + ul))
-          ELSE <<Attr(name, "")>> \o ParseAttrsFrom(s, SkipWs(s, p + nl))
+               IN IF ql > 0 THEN <<Attr(name, CatAtoms(Unquote(SubSeq(s, p2, p2 + ql - 1), dev)))>> \o ParseAttrsFromD(s, SkipWs(s, p2 + ql), dev)
+                  ELSE <<Attr(name, CatAtoms(SubSeq(s, p2, p2 + ul - 1)))>> \o ParseAttrsFromD(s, SkipWs(s, p2 + ul), dev)
+          ELSE <<Attr(name, "")>> \o ParseAttrsFromD(s, SkipWs(s, p + nl), dev)
+ParseAttrsFrom(s, p) == ParseAttrsFromD(s, p, {})
 \* node.attrs[name] = value: a dict, later duplicates overwrite in place
 RECURSIVE PutAttrs(_, _)
 PutAttrs(attrs, new) ==
@@ -623,7 +716,8 @@ PutAttrs(attrs, new) ==
            hit == \E i \in 1..Len(attrs) : attrs[i].n = a.n
        IN PutAttrs(IF hit THEN [i \in 1..Len(attrs) |-> IF attrs[i].n = a.n THEN a ELSE attrs[i]] ELSE Append(attrs, a),
                    Tail(new))
-ParseAttrs(f, s) == [f EXCEPT !.attrs = PutAttrs(f.attrs, ParseAttrsFrom(s, 1))]
+ParseAttrsD(f, s, dev) == [f EXCEPT !.attrs = PutAttrs(f.attrs, ParseAttrsFromD(s, 1, dev))]
+ParseAttrs(f, s) == ParseAttrsD(f, s, {})
 
 (* ---- check_for_attributes / table_check_attrs / table_row_check_attrs ---- *)
 \* html.escape(quote=True)
@@ -659,11 +753,11 @@ CheckAttrs(st, kind) ==
   ELSE IF kind = "TABLE_ROW" /\ "RowCellsReadAsAttributes" \notin st.dev /\ (\E i \in 1..Len(f.children) : IsCellNode(f.children[i]))
   THEN Cov(st, "attrs:row-has-cells")
   ELSE IF Len(f.children) = 1 /\ IsStr(f.children[1])
-  THEN Cov(SetTop(st, ParseAttrs([f EXCEPT !.children = <<>>], f.children[1].s)), "attrs:" \o kind)
+  THEN Cov(SetTop(st, ParseAttrsD([f EXCEPT !.children = <<>>], f.children[1].s, st.dev)), "attrs:" \o kind)
   ELSE LET cand == Candidate(f.children, st.dev \cap AllUnparseDevs) IN
        IF \A i \in 1..Len(cand) : cand[i] \in WS THEN SetTop(st, [f EXCEPT !.children = <<>>])
        ELSE IF MatchAssignments(cand, 1, 0)
-       THEN Cov(SetTop(st, ParseAttrs([f EXCEPT !.children = <<>>], cand)), "attrs:regex-over-child-nodes")
+       THEN Cov(SetTop(st, ParseAttrsD([f EXCEPT !.children = <<>>], cand, st.dev)), "attrs:regex-over-child-nodes")
        ELSE Cov(st, "attrs:not-attributes")
 TableCheckAttrs(st) == CheckAttrs(st, "TABLE")
 TableRowCheckAttrs(st) == CheckAttrs(st, "TABLE_ROW")
@@ -734,7 +828,7 @@ TableCellFn(st, tok) ==   \* tok = <<"|">> or <<"|", "|">>
      THEN \* the first | after the start of a caption / cell separates its attributes
           IF node.attrs = <<>>
           THEN IF Len(node.children) = 1 /\ IsStr(node.children[1])
-               THEN Cov(SetTop(st1, ParseAttrs([node EXCEPT !.children = <<>>], node.children[1].s)), "cell:attrs")
+               THEN Cov(SetTop(st1, ParseAttrsD([node EXCEPT !.children = <<>>], node.children[1].s, st1.dev)), "cell:attrs")
                ELSE Cov(st1, "cell:bar-dropped")
           ELSE TextFn(Cov(st1, "cell:bar-is-text"), tok)
      ELSE CellLoop(st1, tok)
@@ -842,7 +936,7 @@ StartTagFn(st, tok) ==
   ELSE IF name \notin Allowed THEN TextFn(Cov(st, "tag:not-allowed"), tok.s)
   ELSE LET st1 == AutoClose(st, name)
            st2 == Push(st1, "HTML")
-           st3 == SetTop(st2, ParseAttrs([Top(st2) EXCEPT !.sarg = <<name>>], tok.attrs))
+           st3 == SetTop(st2, ParseAttrsD([Top(st2) EXCEPT !.sarg = <<name>>], tok.attrs, st.dev))
        IN IF Tags[name].noend \/ tok.selfclose THEN Cov(Pop(st3, FALSE), "tag:void") ELSE Cov(st3, "tag:open")
 
 EndTagFn(st, tok) ==
